@@ -33,11 +33,11 @@ func init() {
 				d = 4
 			}
 			return evid.Spec{ID: "C16", Level: "exploration", Exhaustive: true,
-				Rule: fmt.Sprintf("12 documents per format (YAML, JSON): base; without prefix_deny; without prefix_allow; users reordered; users shrunk so the guest takes the administrator's list position; administrator without commands; "+
-					"without groups and authenticator; authenticator options with a key removed; secrets shrunk and reordered; syntactically invalid; valid but no users; valid but no secrets. All sequences of length <= %d are fed to ONE loader object. "+
+				Rule: fmt.Sprintf("15 documents per format (YAML, JSON): base; without prefix_deny; without prefix_allow; users reordered; users shrunk so the guest takes the administrator's list position; administrator without commands; "+
+					"without groups and authenticator; authenticator options with a key removed; secrets shrunk and reordered; syntactically invalid; valid but no users; valid but no secrets; one scope only; the group keeps its name and its members their entries but it grants no command / other commands. All sequences of length <= %d are fed to ONE loader object. "+
 					"After every load: a successful load must publish a value reflect.DeepEqual to what a freshly constructed loader publishes for the same document; every value published earlier must still equal the deep copy taken when it was published; "+
-					"a failing load must publish nothing; when a failing document is fed before the consumer collected the previously published value, that value must still be delivered unchanged. Each published value is also handed to a real loader.Loader behind the full server and the outcome of (a) a connection from an address only prefix_deny blocks, (a2) a lookup from an address only the second scope covers (served iff the document lists that scope and assigns it a user) and (b) a command authorization "+
-					"only the administrator holds must be what the last good document says. File plane: ONE path rewritten <= 3 (4) times over {document A, A with one rule flipped (same length), another document, unparsable text} x {modification time moves on, modification time pinned} and reloaded with Load(path) after every rewrite: what is published equals what a fresh loader publishes for the file as it is now. distinct_nontrivial = distinct sequences with at least two different successful documents", d),
+					"a failing load must publish nothing; when a failing document is fed before the consumer collected the previously published value, that value must still be delivered unchanged. Each published value is also handed to a real loader.Loader behind the full server and the outcome of (a) a connection from an address only prefix_deny blocks, (a2) a lookup from an address only the second scope covers (served iff the document lists that scope and assigns it a user) and (b) nine command authorizations (a command only the administrator holds, commands only the group grants, asked as members and as a non-member) "+
+					"must be what the last good document says. File plane: ONE path rewritten <= 3 (4) times over {document A, A with one rule flipped (same length), another document, unparsable text} x {modification time moves on, modification time pinned} and reloaded with Load(path) after every rewrite: what is published equals what a fresh loader publishes for the file as it is now. distinct_nontrivial = distinct sequences with at least two different successful documents", d),
 				Assumptions: []string{"documents are produced by marshalling config values with the repository's struct tags (omitempty drops the optional keys)"}}
 		},
 		Workers: constInt(16, 16),
@@ -204,6 +204,22 @@ func c16Docs() []config.ServerConfig {
 		mod(func(c *config.ServerConfig) { c.Users = nil }),
 		mod(func(c *config.ServerConfig) { c.Secrets = nil }),
 		mod(func(c *config.ServerConfig) { c.Secrets = []config.SecretConfig{s1} }),
+		// 13, 14: the group keeps its name and its members' own entries are untouched, only what the group grants changes
+		mod(func(c *config.ServerConfig) { c16SetGroup(c, "noc", nil) }),
+		mod(func(c *config.ServerConfig) {
+			c16SetGroup(c, "noc", []config.Command{{Name: "traceroute", Action: config.PERMIT}, {Name: "ping", Match: []string{"10\\..*"}, Action: config.PERMIT}})
+		}),
+	}
+}
+
+// c16SetGroup replaces the commands of every occurrence of the named group.
+func c16SetGroup(c *config.ServerConfig, name string, cmds []config.Command) {
+	for i := range c.Users {
+		for j := range c.Users[i].Groups {
+			if c.Users[i].Groups[j].Name == name {
+				c.Users[i].Groups[j].Commands = cmds
+			}
+		}
 	}
 }
 
@@ -410,11 +426,14 @@ func c16Behaviour(c *Ctx, rw *rworld, doc config.ServerConfig) string {
 	if conn.Closed() {
 		return "a client inside the first scope is refused"
 	}
-	ask := func(user string, sid uint32) int {
+	ask := func(user string, sid uint32, cmd, arg string) int {
 		m := ref.NewMsg()
 		m.N["authen_method"], m.N["priv_lvl"], m.N["authen_type"], m.N["authen_service"] = 6, 1, 1, 1
 		m.S["user"] = []byte(user)
-		m.Args = [][]byte{[]byte("service=shell"), []byte("cmd=configure"), []byte("cmd-arg=terminal")}
+		m.Args = [][]byte{[]byte("service=shell"), []byte("cmd=" + cmd)}
+		if arg != "" {
+			m.Args = append(m.Args, []byte("cmd-arg="+arg))
+		}
 		body, _ := ref.AuthorRequest.Encode(m)
 		h := ref.Header{Version: 0xc0, Type: 2, Seq: 1, Session: sid}
 		if _, err := rw.W.Deliver(conn, ref.Packet(h, []byte("key-one"), body)); err != nil {
@@ -430,7 +449,7 @@ func c16Behaviour(c *Ctx, rw *rworld, doc config.ServerConfig) string {
 		}
 		return rm.N["status"]
 	}
-	want := func(user string) int {
+	want := func(user, cmd, arg string) int {
 		for _, u := range doc.Users {
 			if u.Name == user {
 				rules := []ref.Rule{}
@@ -442,7 +461,7 @@ func c16Behaviour(c *Ctx, rw *rworld, doc config.ServerConfig) string {
 						rules = append(rules, ref.Rule{Name: cm.Name, Action: int(cm.Action), Match: cm.Match})
 					}
 				}
-				if ref.EvalCommand(rules, "configure", "terminal").Permit {
+				if ref.EvalCommand(rules, cmd, arg).Permit {
 					return 1
 				}
 				return 0x10
@@ -450,9 +469,12 @@ func c16Behaviour(c *Ctx, rw *rworld, doc config.ServerConfig) string {
 		}
 		return 0x10
 	}
-	for i, u := range []string{"guest", "admin"} {
-		if got, w := ask(u, uint32(0x1600+i)), want(u); got != w {
-			return fmt.Sprintf("authorization of 'configure terminal' for %s answered status %#x, the document says %#x", u, got, w)
+	// ... and commands that only the group grants (ping, traceroute), asked as its members and as a non-member
+	probes := [][3]string{{"guest", "configure", "terminal"}, {"admin", "configure", "terminal"}, {"admin", "ping", ""}, {"admin", "ping", "10.1.1.1"},
+		{"third", "ping", ""}, {"third", "traceroute", ""}, {"admin", "traceroute", ""}, {"guest", "ping", ""}, {"guest", "show", "version"}}
+	for i, p := range probes {
+		if got, w := ask(p[0], uint32(0x1600+i), p[1], p[2]), want(p[0], p[1], p[2]); got != w {
+			return fmt.Sprintf("authorization of '%s %s' for %s answered status %#x, the document says %#x", p[1], p[2], p[0], got, w)
 		}
 	}
 	return ""
